@@ -1,12 +1,13 @@
-\* two servers x all profiles x strategies x parallelism x per-attempt timeout; one caller
-SPECIFICATION Spec
+\* concurrent identical queries: callers join at every point of the timeline or arrive after completion
+SPECIFICATION FairSpec
 CONSTANTS
-  Configs <- MC_Two
-  NCallers = 1
+  Configs <- MC_Shared
+  NCallers = 2
   Gaps <- MC_Gaps
   Backoff0 = 20
   BackoffCap = 300
   DeadlineRule = "required"
   UdpRule = "required"
 INVARIANTS TypeOK C18_Deadline C18_FindsHealthy C18_TcpRetry C18_UntrustedNxContinues C18_SharedOnce C18_MapCleaned
+PROPERTY C18_EveryCallerServed
 CHECK_DEADLOCK FALSE
